@@ -26,8 +26,9 @@ namespace math
 
 \ingroup fcpptmath
 
-The same as #fcppt::math::ceil_div, except in case where dividend
-is negative, dividend / divisor is returned.
+The same as #fcppt::math::ceil_div, but for signed types: Returns nothing if
+divisor is 0 and otherwise the smallest integer that is not less than dividend /
+divisor, for every combination of signs.
 
 \tparam T A signed type
 */
@@ -38,15 +39,15 @@ fcppt::optional::object<T> ceil_div_signed(T const &_dividend, T const &_divisor
 
   T const zero{fcppt::literal<T>(0)};
 
-  return (_dividend < zero)
-             ? fcppt::optional::make_if(
-                   _divisor != zero, [_dividend, _divisor] { return _dividend / _divisor; })
-             : fcppt::optional::map(
-                   fcppt::math::ceil_div(
-                       fcppt::cast::to_unsigned(_dividend), fcppt::cast::to_unsigned(_divisor)),
-                   [](std::make_unsigned_t<T> const _result) {
-                     return fcppt::cast::to_signed(_result);
-                   });
+  return fcppt::optional::make_if(_divisor != zero, [_dividend, _divisor, zero] {
+    T const quotient{static_cast<T>(_dividend / _divisor)};
+
+    // Integer division truncates towards zero, which rounds the exact quotient down
+    // exactly if it is positive (both signs agree) and not an integer.
+    return (static_cast<T>(_dividend % _divisor) != zero && (_dividend < zero) == (_divisor < zero))
+               ? static_cast<T>(quotient + fcppt::literal<T>(1))
+               : quotient;
+  });
 }
 
 }
